@@ -217,11 +217,22 @@ func keyLess(a, b *V) bool {
 	case 1:
 		return a.Kind == 'f' && b.Kind == 't'
 	case 2:
-		return a.rat().Cmp(b.rat()) < 0
+		if c := a.rat().Cmp(b.rat()); c != 0 {
+			return c < 0
+		}
+		// equal numbers of different Go types (1, 1.0, int64(1) in a map[any]any): by type name, as values.SortedMapKeys
+		return a.numTypeName() < b.numTypeName()
 	case 3:
 		return a.S < b.S
 	}
 	return a.Enc() < b.Enc()
+}
+
+func (v *V) numTypeName() string {
+	if v.Kind == 'i' {
+		return intTypes[v.IK].String()
+	}
+	return fltTypes[v.IK].String()
 }
 
 func (v *V) rat() *big.Rat {
